@@ -449,6 +449,71 @@ pub fn held_handle_case(a: &Args, idx: u64, acc: &mut Acc) {
     }
 }
 
+/// Read handles of the async port against `std::io::Cursor` over the same bytes (what C14 does for the sync
+/// handles): one file, many read/seek scripts, moderate offsets; async physical files included on purpose (their
+/// handle is a third-party type).
+pub fn async_handle_case(a: &Args, idx: u64, acc: &mut Acc) {
+    use crate::props::c14::{cmp_results, gen_bytes, gen_read_script, render_rs};
+    let mut rng = Rng::derive(a.seed, "c15-handles", idx);
+    let cfg = match rng.below(8) {
+        0 | 1 => Cfg::Mem,
+        2 | 3 => Cfg::Phys,
+        4 => Cfg::Alt(Box::new(Cfg::Mem), "/__alt/p".into()),
+        5 => Cfg::Alt(Box::new(Cfg::Phys), "/__alt".into()),
+        6 => Cfg::Ovl(vec![(Cfg::Mem, "".into()), (Cfg::Phys, "".into())]),
+        _ => Cfg::Ovl(vec![(Cfg::Phys, "".into()), (Cfg::Mem, "/__lay1".into())]),
+    };
+    let ab = match guard(|| block_on(abuild(&cfg, vec![0]))) {
+        Ok(b) => b,
+        Err(_) => return,
+    };
+    let content = gen_bytes(&mut rng, true);
+    let mut tree: BTreeMap<String, Node> = BTreeMap::new();
+    tree.insert("/f".into(), Node::File(content.clone()));
+    let in_lower = !ab.layer_views.is_empty() && rng.chance(1, 2);
+    let view = if in_lower { ab.layer_views[ab.layer_views.len() - 1].clone() } else { ab.root.clone() };
+    if guard(|| block_on(awrite_tree(&view, "", &tree))).map(|r| r.is_err()).unwrap_or(true) {
+        acc.count("setup_failed", 1);
+        return;
+    }
+    let sched: Vec<u8> = if rng.chance(1, 2) { vec![0] } else { (0..rng.range(3, 9)).map(|_| rng.below(3) as u8).collect() };
+    ab.ctl.set_schedule(sched.clone());
+    acc.evaluations += 1;
+    for k in 0..4u64 {
+        let script = gen_read_script(&mut rng, content.len(), false);
+        let reference = crate::ops::run_rscript(&mut std::io::Cursor::new(content.clone()), &script);
+        let root = ab.root.clone();
+        let got = guard(|| {
+            block_on(async {
+                let mut h = crate::asyncside::aat(&root, "/f").open_file().await.map_err(|e| e.to_string())?;
+                Ok::<_, String>(crate::asyncside::arun_rscript(&mut *h, &script).await)
+            })
+        });
+        acc.steps += script.len() as u64;
+        acc.fingerprints.insert(Rng::derive(content.len() as u64, &format!("{:?}", script), 15).0);
+        let detail = || J::obj().set("tag", J::s("c15-handles")).set("seed", J::i(a.seed)).set("history", J::i(idx)).set("config", J::s(format!("async {}", cfg.desc()))).set("file_in_lower_layer", J::Bool(in_lower)).set("poll_schedule", J::s(format!("{:?}", sched))).set("content_len", J::i(content.len() as u64)).set("script", J::s(format!("{:?}", script)));
+        match got {
+            Err(p) => {
+                acc.violate(Violation { property: "C13", signature: format!("panic|async-read-handle|{}|{}|{}", cfg.family(), p.head(), p.file()), summary: format!("async read handle panicked: {} at {}", p.message, p.location), detail: detail(), order: idx * 10 + k });
+                return;
+            }
+            Ok(Err(e)) => {
+                acc.violate(Violation { property: "C15", signature: format!("async-handle|open-failed|{}", cfg.family()), summary: format!("opening an existing file through the async port failed: {}", e), detail: detail(), order: idx * 10 + k });
+                return;
+            }
+            Ok(Ok(res)) => {
+                if let Some(i) = cmp_results(&res, &reference) {
+                    let step = match &script[i] { crate::ops::RStep::Read(0) => "read0", crate::ops::RStep::Read(_) => "read", crate::ops::RStep::Seek(..) => "seek", crate::ops::RStep::ReadToEnd => "read_to_end" };
+                    acc.violate(Violation { property: "C15", signature: format!("async-handle|{}|{}|{}", step, if in_lower { "lower-layer" } else { "direct" }, cfg.family()), summary: format!("async read handle differs from std::io::Cursor (and so from the sync handle, C14) at step {} of {:?} on a {}-byte file: handle [{}] cursor [{}]", i, script, content.len(), render_rs(&res), render_rs(&reference)), detail: detail(), order: idx * 10 + k });
+                    return;
+                }
+            }
+        }
+    }
+    acc.count("async_handle_cases", 1);
+    acc.cell(format!("async-handle|{}", cfg.family()));
+}
+
 pub fn run(a: &Args) -> Acc {
     let k = if a.tier == "thorough" { 8 } else { 4 };
     let mut acc = par_run(a, "c15", a.n(1500, 30000), |a, idx, acc| run_case(a, "c15", idx, k, acc));
@@ -457,6 +522,7 @@ pub fn run(a: &Args) -> Acc {
     acc.merge(par_run(a, "c15-walk-mutation", a.n(3000, 60000), walk_mutation_case));
     acc.merge(par_run(a, "c15-transfer", a.n(1200, 20000), transfer_case));
     acc.merge(par_run(a, "c15-held", a.n(4000, 60000), held_handle_case));
+    acc.merge(par_run(a, "c15-handles", a.n(1500, 25000), async_handle_case));
     acc
 }
 
